@@ -562,8 +562,12 @@ func apiConditionalCase(t *rapid.T, prop string) {
 	// ---- the generated operations affect exactly the listed rows ----
 	// The expected effect is computed by the reference interpreter on one operation per
 	// listed row (where _uuid == row): that is the set of rows the statement promises.
-	action := rapid.SampledFrom([]string{"Delete", "Update", "Mutate"}).Draw(t, "action")
+	action := rapid.SampledFrom([]string{"Delete", "Update", "Mutate", "Delete", "Update", "Mutate", "Wait"}).Draw(t, "action")
 	kase.Action = action
+	if action == "Wait" {
+		apiWaitCase(t, prop, a, tb, rows, capi, kind, cfg.name, gotSet, &kase, fail)
+		return
+	}
 	var ops []ovsdb.Operation
 	listedUUIDs := make([]string, 0, len(gotSet))
 	for u := range gotSet {
